@@ -39,6 +39,30 @@ def _orientation(term):
 WANT = {"Bids": 1, "Asks": 0}   # 1 = descending
 
 
+def _pred_orientation(t):
+    """1 / 0 if the `is_sorted_by`-style predicate `|a, b| ...` holds exactly for pairs in descending / ascending price order
+    (equal prices allowed or not - both leave a sorted vector), else None"""
+    rel = None
+    if t[0] == "call" and len(t[2]) == 2:
+        name = t[1].rsplit("::", 1)[-1]
+        if t[1].startswith("std::cmp::PartialOrd::") and name in ("ge", "gt", "le", "lt"):
+            rel, x, y = name, t[2][0], t[2][1]
+    if t[0] == "call" and len(t[2]) == 1 and t[1].startswith("std::cmp::Ordering::is_") and t[1].rsplit("::is_", 1)[-1] in ("ge", "gt", "le", "lt"):
+        o = _orientation(t[2][0])
+        if o:
+            rel, x, y = t[1].rsplit("::is_", 1)[-1], o[1], o[2]
+            if o[0]:
+                x, y = y, x
+    if rel is None:
+        return None
+    desc = rel in ("ge", "gt")
+    if render(x) == "$1.price" and render(y) == "$2.price":
+        return 1 if desc else 0
+    if render(x) == "$2.price" and render(y) == "$1.price":
+        return 0 if desc else 1
+    return None
+
+
 def r1(ctx):
     n = 0
     for side in ("Bids", "Asks"):
@@ -51,6 +75,19 @@ def r1(ctx):
                   got=[render(s[2])[:160] for s in sorts], key="sort")
         o_sort = None
         if ok:
+            # the sort may be skipped only when the levels are ALREADY in this side's order (`is_sorted_by` with a predicate of the
+            # same orientation); any other condition leaves an unsorted vector behind
+            g = cb.guard(sorts[0][0])
+            skip_ok = g == frozenset([frozenset()])
+            if not skip_ok and len(g) == 1 and len(next(iter(g))) == 1:
+                a = next(iter(next(iter(g))))
+                if a[0] == "bool" and a[2] is False and a[1][0] == "call" and mir._strip_generics(a[1][1]).endswith("::is_sorted_by") and \
+                        render(a[1][2][0]) == render(sorts[0][2][2][0]) and a[1][2][-1][0] == "agg":
+                    pb_, _ = mir.closure_body(ctx.facts, a[1][2][-1])
+                    skip_ok = _pred_orientation(pb_.return_term()) == WANT[side]
+            ctx.check("OrderBookSide<%s>::%s" % (side, side.lower()), skip_ok,
+                      "the levels are sorted on every path (the sort is skipped at most when they are already in %s order)" %
+                      ("descending" if WANT[side] else "ascending"), sites=[sorts[0][1]["sp"]], got=render_guard(g)[:300], key="sort-always")
             clb, _ = mir.closure_body(ctx.facts, sorts[0][2][2][-1])
             o = _orientation(clb.return_term())
             if o and render(o[1]) == "$1.price" and render(o[2]) == "$2.price":
